@@ -142,7 +142,9 @@ theorem c16_receiver_step (c : RCfg) (r : Nat) (s : RState) (ev : REv) :
             · exact hflush _
             · exact ⟨rfl, hnil⟩
         · exact ⟨rfl, hnil⟩
-      · exact hflush _
+      · split
+        · exact ⟨rfl, hnil⟩
+        · exact hflush _
     | error => exact ⟨rfl, hnil⟩
     | fail =>
       simp only
